@@ -1,7 +1,7 @@
 //! Kani harnesses for the shared handles of src/channel/mpmc.rs (hooked inside `if_alloc::shared`): lifecycle C11.
 //! GROUP: mpmc_shared
 //! MODULE: channel::mpmc::if_alloc::shared::kani_verif_shared
-//! TAGS: C01 C08 C11 C17
+//! TAGS: C01 C08 C11 C17 C18
 //! N: quick=4 thorough=4
 //! UNWIND_EXTRA: 3
 //! KIND: harness (loop-free handle code; full-domain handle counters)
@@ -9,6 +9,8 @@
 //! clone/drop of the handles are loop-free, so a symbolic counter over the whole usize range makes each of these a
 //! complete check of the function; "count == number of live handles" then follows by induction over clone/drop.
 use super::*;
+#[path = "/verif/kani/kit.rs"]
+mod kit;
 use crate::buffer::ArrayBuf;
 use core::sync::atomic::Ordering;
 use futures_core::stream::{FusedStream, Stream};
@@ -168,6 +170,8 @@ fn noop_cx_waker() -> core::task::Waker {
 }
 
 #[kani::proof]
+#[kani::stub(alloc::alloc::alloc, kit::no_alloc)]
+#[kani::stub(alloc::alloc::dealloc, kit::no_dealloc)]
 fn shared_receive_pending_keeps_its_handle() {
     use core::future::Future;
     use futures_core::future::FusedFuture;
@@ -182,6 +186,8 @@ fn shared_receive_pending_keeps_its_handle() {
 }
 
 #[kani::proof]
+#[kani::stub(alloc::alloc::alloc, kit::no_alloc)]
+#[kani::stub(alloc::alloc::dealloc, kit::no_dealloc)]
 fn shared_send_then_receive_complete_once() {
     use core::future::Future;
     use futures_core::future::FusedFuture;
@@ -189,17 +195,21 @@ fn shared_send_then_receive_complete_once() {
     let wk = noop_cx_waker();
     let mut cx = core::task::Context::from_waker(&wk);
     let v: u8 = kani::any();
+    kit::arm(); // creating and polling shared futures clones / releases Arc handles but must not allocate or free (C18)
     let mut sf = core::mem::ManuallyDrop::new(s.send(v));
     assert!(!sf.is_terminated(), "[C17] is_terminated() is false from creation");
     let p = unsafe { core::pin::Pin::new_unchecked(&mut *sf) }.poll(&mut cx);
     assert!(p.is_ready() && sf.is_terminated(), "[C17] a completed shared send future is terminated");
     let mut rf = core::mem::ManuallyDrop::new(r.receive());
     let p = unsafe { core::pin::Pin::new_unchecked(&mut *rf) }.poll(&mut cx);
+    kit::disarm();
     assert!(matches!(p, core::task::Poll::Ready(Some(x)) if x == v) && rf.is_terminated(), "[C17] [C08] the shared receive future completes once, with the value that was sent");
     core::mem::forget((s, r));
 }
 
 #[kani::proof]
+#[kani::stub(alloc::alloc::alloc, kit::no_alloc)]
+#[kani::stub(alloc::alloc::dealloc, kit::no_dealloc)]
 fn shared_stream_yields_then_pends() {
     let (s, r) = pair();
     let wk = noop_cx_waker();
@@ -208,7 +218,9 @@ fn shared_stream_yields_then_pends() {
     let _ = s.try_send(v);
     let mut st = core::mem::ManuallyDrop::new(r.into_stream());
     assert!(!st.is_terminated(), "[C17] a new stream is not terminated");
+    kit::arm(); // receiving an item through the stream must not allocate or free (C18)
     let p = unsafe { core::pin::Pin::new_unchecked(&mut *st) }.poll_next(&mut cx);
+    kit::disarm();
     assert!(matches!(p, core::task::Poll::Ready(Some(x)) if x == v) && !st.is_terminated(), "[C17] a stream yields exactly the values successive receives would");
     core::mem::forget(s);
 }
